@@ -545,10 +545,14 @@ SignalHandler::~SignalHandler() {
 
 void SignalHandler::SetHandler(InterruptHandler handler, void *data) {
   MP_VERIF_POINT("sh.set.enter");
-  handler_ = handler;
-  MP_VERIF_POINT("sh.set.after_handler");
+  // A signal can arrive between any two of these stores: never expose
+  // the new handler together with the old data.
+  handler_ = 0;
+  MP_VERIF_POINT("sh.set.after_handler_clear");
   data_ = data;
   MP_VERIF_POINT("sh.set.after_data");
+  handler_ = handler;
+  MP_VERIF_POINT("sh.set.after_handler");
 }
 
 void SignalHandler::HandleSigInt(int sig) {
